@@ -5,6 +5,7 @@ package main
 import (
 	"bytes"
 	"context"
+	"errors"
 	"io"
 	"os"
 	"strconv"
@@ -18,10 +19,20 @@ type failingReader struct {
 	data []byte
 	pos  int
 	step int
+	err  error // nil: errInjectedReader
 }
+
+// an injected failure that also wraps context.Canceled (an abandoned stream): still a failure of the reader / writer
+var (
+	errReaderCanceled = errors.Join(errInjectedReader, context.Canceled)
+	errWriterCanceled = errors.Join(errInjectedWriter, context.Canceled)
+)
 
 func (r *failingReader) Read(p []byte) (int, error) {
 	if r.pos >= len(r.data) {
+		if r.err != nil {
+			return 0, r.err
+		}
 		return 0, errInjectedReader
 	}
 	n := len(p)
@@ -62,12 +73,23 @@ func (w *budgetWriter) Write(p []byte) (int, error) {
 		w.acc.Write(p)
 		return len(p), nil
 	}
+	if w.flavour == "4" {
+		// the write that crosses the budget takes all its bytes and reports an error all the same
+		// (io.Writer allows n == len(p) with a non-nil error, e.g. a failed sync after the copy)
+		w.acc.Write(p)
+		w.budget = 0
+		w.failed = true
+		return len(p), errInjectedWriter
+	}
 	n := w.budget
 	w.acc.Write(p[:n])
 	w.budget = 0
 	w.failed = true
 	if w.flavour == "1" {
 		return n, io.ErrShortWrite
+	}
+	if w.flavour == "5" {
+		return n, errWriterCanceled
 	}
 	return n, errInjectedWriter
 }
@@ -124,11 +146,17 @@ func handleFaults(toks []string) (string, bool) {
 		data := []byte(unhex(toks[12]))
 		var r io.Reader = bytes.NewReader(data)
 		if toks[1] != "-" {
-			k, _ := strconv.Atoi(toks[1])
+			var rerr error
+			ks := toks[1]
+			if strings.HasSuffix(ks, "c") {
+				rerr = errReaderCanceled
+				ks = ks[:len(ks)-1]
+			}
+			k, _ := strconv.Atoi(ks)
 			if k > len(data) {
 				k = len(data)
 			}
-			r = &failingReader{data: data[:k], step: 7}
+			r = &failingReader{data: data[:k], step: 7, err: rerr}
 		}
 		var err error
 		var acc string
